@@ -19,6 +19,7 @@ package writer
 
 import (
 	"bytes"
+	"errors"
 	"fmt"
 	"math"
 	"os"
@@ -324,14 +325,22 @@ func AddEntryToInMemBuf(streamid string, indexName string, flush bool,
 	signalType SIGNAL_TYPE, orgid int64, rid uint64, cnameCacheByteHashToStr map[uint64]string,
 	jsParsingStackbuf []byte, pleArray []*ParsedLogEvent,
 ) error {
-	segstore, err := getOrCreateSegStore(streamid, indexName, orgid)
-	if err != nil {
-		log.Errorf("AddEntryToInMemBuf, getSegstore err=%v", err)
+	for {
+		segstore, err := getOrCreateSegStore(streamid, indexName, orgid)
+		if err != nil {
+			log.Errorf("AddEntryToInMemBuf, getSegstore err=%v", err)
+			return err
+		}
+
+		err = segstore.AddEntry(streamid, indexName, flush, signalType, orgid, rid,
+			cnameCacheByteHashToStr, jsParsingStackbuf, pleArray)
+		if err == errSegStoreRemovedAsStale {
+			// The stale segstore cleanup removed this segstore after we looked it up; nothing
+			// would ever flush what we add to it, so get (or create) the current one.
+			continue
+		}
 		return err
 	}
-
-	return segstore.AddEntry(streamid, indexName, flush, signalType, orgid, rid,
-		cnameCacheByteHashToStr, jsParsingStackbuf, pleArray)
 }
 
 func (ss *SegStore) doLogEventFilling(ple *ParsedLogEvent, tsKey *string) (bool, error) {
@@ -451,6 +460,8 @@ func (ss *SegStore) doLogEventFilling(ple *ParsedLogEvent, tsKey *string) (bool,
 	return matchedCol, nil
 }
 
+var errSegStoreRemovedAsStale = errors.New("segstore was removed by the stale segstore cleanup")
+
 func (segstore *SegStore) AddEntry(streamid string, indexName string, flush bool,
 	signalType SIGNAL_TYPE, orgid int64, rid uint64, cnameCacheByteHashToStr map[uint64]string,
 	jsParsingStackbuf []byte, pleArray []*ParsedLogEvent,
@@ -459,6 +470,10 @@ func (segstore *SegStore) AddEntry(streamid string, indexName string, flush bool
 
 	segstore.Lock.Lock()
 	defer segstore.Lock.Unlock()
+
+	if segstore.removedAsStale {
+		return errSegStoreRemovedAsStale
+	}
 
 	for _, ple := range pleArray {
 
@@ -608,11 +623,16 @@ func removeStaleSegments() {
 		if !ok {
 			continue
 		}
-		// Check again here to make sure we are not deleting a segstore that was updated
+		// Check again here to make sure we are not deleting a segstore that was updated.
+		// An ingest that looked this segstore up earlier may still be about to add to it;
+		// the flag, set under the segstore's lock, makes it pick up a registered segstore.
+		segstore.Lock.Lock()
 		if segstore.isSegstoreUnusedSinceTime(STALE_SEGMENT_DELETION_SECONDS) {
 			log.Infof("Deleting unused segstore for segkey: %v", segstore.SegmentKey)
+			segstore.removedAsStale = true
 			delete(allSegStores, streamid)
 		}
+		segstore.Lock.Unlock()
 	}
 	allSegStoresLock.Unlock()
 }
